@@ -453,6 +453,12 @@ _ADDED = {
     "C16": ("RESERVED0 / ROWRANGE: the BOS/EOS row of the raw connector is zeroed over its full "
             "width and rows are addressed by id * feat_template_size (the `including id 0` "
             "clause for more than 8 templates).", "symbolic index-range shape rule"),
+    "C19": ("CORPUS: sentence bookkeeping of Corpus::from_reader (empty sentences dropped on the "
+            "is_empty edge of the sentence text, the pending token list renewed on every path out "
+            "of the EOS arm, malformed lines reach Err). ERRPROP: no io/parse error value is "
+            "discarded on the corpus path. TRAINPANIC: panic-site audit of compatible_unk_index "
+            "and Trainer::build_lattice under the assumption that the corpus is tokenizer output.",
+            "path rules over MIR, panic-site audit with table"),
     "C20": ("TEMPLATE: the expansion that is matched against model.def lines copies every "
             "literal segment of the template. SCORERBUILD: the double array places a row only at "
             "a base that check_base found free for all of its keys.",
